@@ -188,7 +188,7 @@ class CircuitsDatabase:
         ]
         for i, table in enumerate(truth_table):
             for j, value in enumerate(table):
-                if value is not DontCare:
+                if value != DontCare:
                     continue
                 undefined_positions[len(undefined_positions)] = (i, j)
         result: tp.Optional[Circuit] = None
